@@ -213,6 +213,7 @@ package history
 //@ func (*Sources).Accept
 //@   props C08 C06 C01
 //@   terminates
+//@   allow_alias h.acceptLine = *h.line shares the buffer's backing array; the buffer is not edited between Accept and LineAccepted (same run() call)
 //@   requires hvalid(h) && hdistinct(h) && h.hint != nil
 //@   ensures [returned-is-buffer] h.accepted && h.acceptLine == old(*h.line) && h.acceptErr == err && h.acceptHold == hold
 //@   ensures [errors-not-recorded] err != nil ==> allobj(s, "Source", entries(s) == old(entries(s)))
@@ -301,6 +302,7 @@ package history
 //@   ensures line != nil ==> result0 == line
 //@   ensures (result0 == line || fresh(result0)) && (result1 == cur || fresh(result1))
 //@   ensures [uses-typed-text] line == nil && old(h.hpos) == -1 && hcur(h) != nil ==> *result0 == old(*h.line)
+//@   ensures [saves-typed-text] old(h.hpos) == -1 && hcur(h) != nil ==> typedlh(h) != nil && len(typedlh(h).items) > 0 && typedlh(h).items[len(typedlh(h).items) - 1].line == old(htext(h))
 
 //@ func (*Sources).InsertMatch
 //@   props C09 C01
